@@ -320,4 +320,32 @@ theorem merge_sorted_perm (less : α → α → Bool)
       rw [List.pairwise_cons] at this
       exact this.1 y hy
 
+/-! ## MergeSlices: re-use of the caller's buffer -/
+
+theorem msSum_eq (ins : List (List α)) (n : Int) :
+    ins.foldl (fun n l => if msSumBody = ["n += len(in[i])"] then n + (l.length : Int) else n) n =
+      n + ((ins.map List.length).sum : Int) := by
+  induction ins generalizing n with
+  | nil => simp
+  | cons l ls ih =>
+    rw [List.foldl_cons, ih]
+    have : msSumBody = ["n += len(in[i])"] := rfl
+    simp only [this, ↓reduceIte, List.map_cons, List.sum_cons]
+    omega
+
+theorem mergeSlices_reuse (less : α → α → Bool)
+    (pop : ((α × Nat) → (α × Nat) → Bool) → List (α × Nat) → Option ((α × Nat) × List (α × Nat)))
+    (outCap : Int) (hc : 0 ≤ outCap) (ins : List (List α)) :
+    (mergeSlices less pop outCap ins).2 = true ↔ ((ins.map List.length).sum : Int) ≤ outCap := by
+  simp only [mergeSlices, msSum_eq, msN0, msGrowN, msGrowHi, Model.Stdlib.grow, Model.Stdlib.Sl.cap]
+  have h0 : ¬ ((0 : Int) + ((ins.map List.length).sum : Int) < 0) := by omega
+  simp only [h0, ↓reduceIte, List.length_replicate]
+  by_cases h : (0 : Int).toNat + ((0 : Int) + ((ins.map List.length).sum : Int)).toNat ≤ outCap.toNat
+  · rw [if_pos h]
+    simp only [Bool.not_false, true_iff]
+    omega
+  · rw [if_neg h]
+    simp only [Bool.not_true, Bool.false_eq_true, false_iff]
+    omega
+
 end Juniper.Proofs.Helpers
